@@ -94,6 +94,18 @@ def step_ab(run, n):
                    {'stored_score': ex.to_zint(sc, 'i16'), 'stored_bound': bv(bd.d), 'stored_depth': bv(dp), 'V': V})
     if not ins and n > 0:
         run.inconclusive.append('%s: no cache write observed' % name)
+    # the table as it is left (whatever API wrote it: insert, entry().or_insert(), get_mut): the node's entry, if it claims
+    # at least the requested depth, is sound for the true value
+    final_tt = ex.load(st2, ('S', 'board::transposition_table::TRANSPOSITION_TABLE'), ())
+    fe = final_tt.d.get(node['key']) if isinstance(final_tt, A.MapV) else None
+    if fe is not None:
+        fsc, fdp, fbd, _ = fe[1]
+        badf = z3.And(zb(fe[0]), z3.UGE(bv(fdp), depth), z3.Not(sound(bv(fbd.d), ex.to_zint(fsc, 'i16'), V)))
+        q = run.decide('%s/table-left-sound' % name, pre + [badf], kind='smt',
+                       note='the entry left in the table for the node, if at least as deep as the request, is sound for the true value')
+        if q.verdict == 'sat':
+            report(run, q, name, 'alpha_beta leaves an unsound cache entry for the node',
+                   {'left_score': ex.to_zint(fsc, 'i16'), 'left_bound': bv(fbd.d), 'left_depth': bv(fdp), 'V': V, 'result': res})
     check_calls(run, env, name, pre, st2.guard, eff - 1)
     for ob, qq in run.check_obligations(ex, name):
         report(run, qq, name, 'panic reachable in alpha_beta with the cache on: %s %s' % (ob.where.split('::')[-1], ob.msg[:80]))
